@@ -58,14 +58,29 @@ Proof. rewrite grease_word_val. apply grease_val_is_grease, nib_lt. Qed.
 Definition is_grease_ref (v : N) : bool :=
   (v mod 4112 =? 2570) && (v / 4112 <? 16).
 
-Lemma is_grease_sweep : forallb (fun v => Bool.eqb (is_grease v) (is_grease_ref v)) (nrange 65536) = true.
+(* two-level sweep over uint16 = 256 * hi + lo (no large nat literal) *)
+Lemma sweep16_lift (P : N -> bool) :
+  forallb (fun h => forallb (fun l => P (256 * h + l)) (nrange 256)) (nrange 256) = true ->
+  forall v, v < 65536 -> P v = true.
+Proof.
+  intros H v Hv.
+  pose proof (N.div_mod v 256 ltac:(discriminate)) as E.
+  pose proof (N.mod_lt v 256 ltac:(discriminate)) as Hl.
+  assert (Hh : v / 256 < 256) by (apply N.div_lt_upper_bound; lia).
+  pose proof (sweep_lift _ 256 H (v / 256) Hh) as H1. cbv beta in H1.
+  pose proof (sweep_lift _ 256 H1 (v mod 256) Hl) as H2. cbv beta in H2.
+  rewrite <- E in H2. exact H2.
+Qed.
+
+Lemma is_grease_sweep :
+  forallb (fun h => forallb (fun l => Bool.eqb (is_grease (256 * h + l)) (is_grease_ref (256 * h + l))) (nrange 256)) (nrange 256) = true.
 Proof. vm_compute. reflexivity. Qed.
 
 Lemma is_grease_spec v : v < 65536 ->
   (is_grease v = true <-> exists w, w < 16 /\ v = grease_val w).
 Proof.
   intros Hv.
-  pose proof (sweep_lift _ 65536 is_grease_sweep v Hv) as H. cbv beta in H.
+  pose proof (sweep16_lift (fun v => Bool.eqb (is_grease v) (is_grease_ref v)) is_grease_sweep v Hv) as H. cbv beta in H.
   apply Bool.eqb_prop in H. rewrite H. unfold is_grease_ref, grease_val.
   rewrite andb_true_iff, N.eqb_eq, N.ltb_lt. split.
   - intros [Hm Hd]. exists (v / 4112). split; [exact Hd|].
@@ -102,10 +117,16 @@ Proof.
   apply negb_true_iff, N.eqb_neq in H1. exact H1.
 Qed.
 
+Lemma land_lxor_distr_l a b c : N.land (N.lxor a b) c = N.lxor (N.land a c) (N.land b c).
+Proof.
+  apply N.bits_inj. intros n. rewrite N.land_spec, !N.lxor_spec, !N.land_spec.
+  destruct (N.testbit a n), (N.testbit b n), (N.testbit c n); reflexivity.
+Qed.
+
 Lemma xor_flips s : grease_word (N.lxor s 4112) <> grease_word s.
 Proof.
   rewrite (grease_word_low (N.lxor s 4112)), (grease_word_low s).
-  rewrite N.land_lxor_distr_l. change (N.land 4112 255) with 16.
+  rewrite land_lxor_distr_l. change (N.land 4112 255) with 16.
   apply xor_flips_byte, land255_lt.
 Qed.
 
